@@ -78,3 +78,90 @@ Example C13_nonvacuous :
     (init [[1; 10; 2]] [[9]; [5; 6]; [4]]) = Some s
   /\ slog s = [7; 2] /\ clog s = [9; 9; 8; 6; 4] /\ st s = StS.
 Proof. eexists. split; [vm_compute; reflexivity|]. repeat split. Qed.
+
+(* ---- trace validation (the tie to the executions actually observed) ----
+   [rv_run tm es 0 (init cs ss)] replays a trace [es] recorded by the overlay build of the
+   real relay (one event per synchronisation operation executed, with the observed value;
+   Model/Relay.v lists the event <-> label mapping).  If it is accepted, the trace stands for
+   a label sequence that is a path of the model from the initial state, and the state after
+   EVERY prefix of the trace is reachable, so C13_inv and C13_aux hold along the execution
+   that was observed.  The harness additionally compares the final [slog]/[clog]/[blog] with
+   the bytes the real writers received. *)
+Theorem C13_trace_sound : forall tm cs ss es s, rv_run tm es O (init cs ss) = RvOk s ->
+  (exists ls, rv_path tm es (init cs ss) = Some ls /\ run true tm ls (init cs ss) = Some s) /\
+  forall k, exists sk, rv_run tm (firstn k es) O (init cs ss) = RvOk sk /\ reach tm (init cs ss) sk /\
+    conserved_I (concat cs) sk /\ conserved_O (concat ss) sk /\
+    lock_discipline sk /\ handshaking_iff_worker sk /\ parked_only_while_handshaking sk /\ status_read_still_current sk.
+Proof. exact relay_trace_sound. Qed.
+Print Assumptions C13_trace_sound.
+
+(* if it is rejected at event j, the first j events are a path of the model, the model state
+   in front of event j is reachable, and event j is not an enabled step there with the
+   observed value: a disagreement between model and code about exactly that operation *)
+Theorem C13_trace_rejected : forall tm cs ss es j sb, rv_run tm es O (init cs ss) = RvBad j sb ->
+  rv_run tm (firstn j es) O (init cs ss) = RvOk sb /\ reach tm (init cs ss) sb /\
+  (exists e, nth_error es j = Some e /\ rv_step tm e sb = None).
+Proof. exact relay_trace_rejected. Qed.
+Print Assumptions C13_trace_rejected.
+
+(* non-vacuity: the observed form of the transfer of C13_nonvacuous is accepted ... *)
+Definition C13_trace_example : list rv_ev :=
+  let S := status_code StS in let H := status_code StH in let T := status_code StT in
+  [ RvRead RvOut [9]; RvLoad RvOut S; RvDetect [9; 9] true; RvScope false; RvStore RvOut H; RvGo;
+    RvSend RvOut RvCli [9; 9] false;
+    RvRead RvIn [1; 10; 2]; RvLoad RvIn H; RvLock RvIn false; RvReload RvIn H; RvScope false;
+    RvAdd RvIn [1; 10; 2]; RvUnlock RvIn;
+    RvEat RvBufI 2; RvRes RvBufI true; RvScope false; RvSend RvHs RvSrv [7] true;
+    RvRead RvOut [5; 6]; RvLoad RvOut H; RvLock RvOut false; RvReload RvOut H; RvAdd RvOut [5; 6]; RvUnlock RvOut;
+    RvEat RvBufO 1; RvRes RvBufO true; RvSend RvHs RvByp [8] false;
+    RvLock RvHs true; RvPop RvBufI (Some [2]); RvSend RvHs RvSrv [2] false; RvPop RvBufI None;
+    RvPop RvBufO (Some [6]); RvSend RvHs RvByp [6] false; RvPop RvBufO None; RvStore RvHs T; RvUnlock RvHs;
+    RvRead RvOut [4]; RvLoad RvOut T; RvSend RvOut RvByp [4] false; RvCas RvOut T true ].
+
+Example C13_trace_nonvacuous :
+  exists s, rv_run false C13_trace_example O (init [[1; 10; 2]] [[9]; [5; 6]; [4]]) = RvOk s
+  /\ slog s = [7; 2] /\ clog s = [9; 9; 8; 6; 4] /\ st s = StS.
+Proof. eexists. split; [vm_compute; reflexivity|]. repeat split. Qed.
+
+(* ... a load that did not return the current status is rejected (event 1), so is parking a
+   chunk without the re-read under the lock (event 10: addBuffer right after Lock), a
+   flush that stores the new status before it pops the server side (event 4 of the flush),
+   and a trigger forwarded before the status store (event 3) *)
+Example C13_trace_rejects :
+  (exists sb, rv_run false [RvRead RvOut [9]; RvLoad RvOut (status_code StH)] O (init [] [[9]]) = RvBad 1 sb) /\
+  (exists sb, rv_run false
+     [ RvRead RvOut [9]; RvLoad RvOut (status_code StS); RvDetect [9] true; RvScope false;
+       RvStore RvOut (status_code StH); RvGo; RvSend RvOut RvCli [9] false;
+       RvRead RvIn [1]; RvLoad RvIn (status_code StH); RvLock RvIn false; RvAdd RvIn [1] ]
+     O (init [[1]] [[9]]) = RvBad 10 sb) /\
+  (exists sb, rv_run false
+     [ RvRead RvOut [9]; RvLoad RvOut (status_code StS); RvDetect [9] true; RvSend RvOut RvCli [9] false ]
+     O (init [] [[9]]) = RvBad 3 sb) /\
+  (exists sb, rv_run false
+     [ RvRead RvOut [9]; RvLoad RvOut (status_code StS); RvDetect [9] true;
+       RvStore RvOut (status_code StH); RvGo; RvSend RvOut RvCli [9] false;
+       RvRes RvBufI false; RvSend RvHs RvByp [5] false; RvSend RvHs RvSrv [5] false;
+       RvLock RvHs false; RvPop RvBufI None; RvCas RvHs (status_code StH) true ]
+     O (init [] [[9]]) = RvBad 11 sb).
+Proof. repeat split; eexists; vm_compute; reflexivity. Qed.
+
+(* ---- the reset guard (repeated transfers, a reset request decided for an earlier state) ----
+   [rg_step ug] is the model with resetToStandby's CompareAndSwap(expected, standby) replaced,
+   for ug = true, by a reset from whatever state the relay is in.  The guarded variant is the
+   faithful model (so C13_inv .. C13_standby_identity are statements about it); the current
+   source has the guard (read off the regenerated skeleton); without it a stale reset of the
+   input reader -- decided while transfer 1 was transferring, executed after transfer 2's
+   trigger -- leaves a server chunk parked in standby and a later one overtakes it. *)
+Theorem C13_reset_guard_is_model : forall tm ls s, rg_run false tm ls s = run true tm ls s.
+Proof. exact rg_run_guarded. Qed.
+Print Assumptions C13_reset_guard_is_model.
+
+Theorem C13_reset_guard_present : rg_current = false /\ rg_unguarded Skel_relay.relay_skel = rg_current.
+Proof. exact reset_guard_ok. Qed.
+Print Assumptions C13_reset_guard_present.
+
+Theorem C13_reset_guard_needed :
+  exists cs ss sched s, rg_run true false sched (init cs ss) = Some s /\ ~ conserved_O (concat ss) s
+    /\ clog s = [9; 102; 7; 9; 6] /\ flat (obr s) (obq s) = [8] /\ st s = StS /\ rg_stranded s = true.
+Proof. exact reset_guard_needed. Qed.
+Print Assumptions C13_reset_guard_needed.
